@@ -211,6 +211,13 @@ func (g *Gen) tokList(a, c int, erc bool) [][2]int64 {
 func (g *Gen) Next(step int) Op {
 	w := g.W
 	r := g.R
+	if len(w.disabledTok) > 0 && (r.Chance(40) || len(g.calls()) > 0) { // re-enable soon
+		for t := range w.Toks {
+			if w.disabledTok[t] {
+				return Op{K: "Toggle", T: t}
+			}
+		}
+	}
 	if step < 5 || r.Chance(12) { // deposits seed the balances
 		t := g.tok()
 		c := g.chainOf(t)
@@ -456,6 +463,9 @@ func (g *Gen) Next(step int) Op {
 			}
 			return Op{K: k, T: t, A: a, B: b, Src: src, Tgt: tgt, X: g.amt(g.bankBal(a, t, src), 2000)}
 		case "Toggle":
+			if len(g.calls()) > 0 || len(w.disabledTok) > 0 {
+				continue // a disabled pair makes refunds to ERC-20 impossible (ConvertCoin refuses): kept out of the histories
+			}
 			return Op{K: k, T: t}
 		case "PreCrossChain":
 			a, t = g.holder(true)
